@@ -50,10 +50,13 @@ def main():
         rc, out, err = run(["gcc", "-O1", "-g", "-w", "-fsanitize=address", "-include", os.path.join(BINDC, "sched_shim.h"),
                             "-I", os.path.join(REPO, "w2c2"), "-I", BINDC, os.path.join(BINDC, "memgrow_driver.c"),
                             os.path.join(BINDC, "sched.c"), "-o", exe, "-lpthread", "-lm"], timeout=300)
-        if rc != 0:
-            raise common.MachineryError("cannot build memgrow driver: " + err[-2000:])
+        shim_ok = rc == 0
+        if not shim_ok:
+            # the tree uses thread primitives the deterministic layer does not provide (it knows the macros of the pinned runtime):
+            # no exploration; the real-thread observers below still run
+            stats["exploration_skipped"] = err[-300:]
         histories, meta, seen = [], [], set()
-        for s in SCRIPTS:
+        for s in (SCRIPTS if shim_ok else []):
             nthr = s.count("|") + 1
             env = {"SCHED_SYNCLOG": "0", "SCHED_PREEMPT": ("3" if nthr <= 2 else "2") if tier == "quick" else ("6" if nthr <= 2 else "3"),
                    "ASAN_OPTIONS": "detect_leaks=0"}
@@ -80,6 +83,23 @@ def main():
             v.deviation("grow:not-linearizable", {"script": meta[idx]["script"], "schedule": meta[idx]["schedule"], "history": h,
                                                   "first_unexplained_event": h[at - 1] if 0 < at <= len(h) else None},
                         {"history.ndjson": "\n".join(json.dumps(e) for e in h) + "\n", "schedule.json": json.dumps(meta[idx])})
+        # 2b. real threads: what no interleaving may show, counted over many rounds (lock-free variants of grow have no scheduling
+        #     points for the deterministic scheduler to explore)
+        stress = os.path.join(wd, "mgstress")
+        rc, out, err = run(["gcc", "-O2", "-g", "-w", "-DWASM_THREADS_PTHREADS", "-I", os.path.join(REPO, "w2c2"),
+                            os.path.join(BINDC, "memgrow_stress.c"), "-o", stress, "-lpthread", "-lm"], timeout=300)
+        if rc != 0:
+            raise common.MachineryError("cannot build the grow stress test: " + err[-2000:])
+        rc, out, err = run([stress, "60" if tier == "quick" else "1500"], timeout=600)
+        try:
+            sres = json.loads(out.strip().splitlines()[-1])
+        except (ValueError, IndexError):
+            sres = None
+            v.deviation("grow:stress:%s" % ("hang" if rc == -999 else "crash"), {"rc": rc, "stderr": err[-600:]})
+        if sres:
+            for k_, n_ in sres.items():
+                if k_ != "rounds" and n_:
+                    v.deviation("grow:stress:%s" % k_, sres)
         # 3. race clause: ThreadSanitizer on real threads
         tsan = os.path.join(wd, "tsan")
         rc, out, err = run(["gcc", "-O1", "-g", "-w", "-fsanitize=thread", "-DWASM_THREADS_PTHREADS", "-I", os.path.join(REPO, "w2c2"),
